@@ -8,7 +8,7 @@ ids = sys.argv[1:] or sorted(os.path.basename(os.path.dirname(p)) for p in glob.
 for sid in ids:
     d = os.path.join(V, "seeded", sid)
     meta = json.load(open(os.path.join(d, "meta.json")))
-    prop = sid.split("-")[0]
+    prop = sid.split("-")[0]      # C06-3, C06-r2-1
     scratch = "/tmp/recheck-" + sid
     subprocess.run([V + "/tools/scratch_repo.sh", scratch], stdout=subprocess.DEVNULL)
     r = subprocess.run("patch -p1 -s < %s/patch.diff" % d, shell=True, cwd=scratch, capture_output=True, text=True)
